@@ -14,6 +14,7 @@ import XlModel.Lemmas.Settings
 import XlModel.Lemmas.CondFmt
 import XlModel.Lemmas.DvDelete
 import XlModel.DvRecord
+import XlModel.CfRule
 
 namespace XlModel.Props.C18
 open XlModel XlModel.Settings
@@ -891,5 +892,205 @@ theorem inner_guards_keep_previous (oldV newV : List Char) (oldZ newZ : Int)
 /-- regression witnesses replayed by the harness: FirstPageNumber 0 after 5 now reads 0 -/
 theorem first_page_zero_regression :
     getFirstPage (setFirstPage (some 5) 0) = 0 ∧ getFirstPage none = 1 := by decide
+
+/-! ## conditional-format rule contents: set → get per rule type -/
+
+section CfRuleThms
+open XlModel.CfRule
+
+local macro "cf_simp" : tactic =>
+  `(tactic| simp (config := { decide := true }) only [drawRule, getRule, XRule.base, Opts.empty, orDefault, Bool.not_true, Bool.not_false,
+      Bool.false_eq_true, if_false, if_true, Bool.or_self, Bool.or_true, Bool.true_or, Bool.not_not, Option.map_some, List.cons_append, List.nil_append])
+
+/-- the extra tables of the rule-content model: criteria-free types, cellIs criteria, 17 icon presets -/
+theorem cf_rule_facts_pinned :
+    Facts.C18.noCriteriaTypes = ["containsBlanks", "notContainsBlanks", "containsErrors", "notContainsErrors", "expression", "iconSet"] ∧
+    Facts.C18.cellIsCriteriaType = ["equal", "notEqual", "greaterThan", "lessThan", "greaterThanOrEqual", "lessThanOrEqual",
+      "containsText", "notContains", "beginsWith", "endsWith"] ∧
+    Facts.C18.condFmtIconSetPresetsKeys.length = 17 := by decide
+
+/-- acceptance of `SetConditionalFormat` for one rule: known type, criteria known or not needed -/
+theorem setGet_eq (o : Opts) (vt : String) (ct : Option String)
+    (hv : lookupS Facts.C18.validType o.type = some vt)
+    (hc : lookupS Facts.C18.criteriaType o.criteria = ct)
+    (hok : (ct.isSome || Facts.C18.noCriteriaTypes.contains vt) = true)
+    (hd : Facts.C18.drawContFmtFuncKeys.contains vt = true) :
+    setGet o = (drawRule vt (strOr ct) o).map getRule := by
+  subst hc
+  unfold setGet setRule
+  simp only [hv]
+  simp only [hok, hd, if_true]
+
+/-- an unknown type, or a type that needs a criteria given an unknown one, is rejected -/
+theorem cf_rejected (o : Opts) :
+    (lookupS Facts.C18.validType o.type = none → setGet o = none) ∧
+    (∀ vt, lookupS Facts.C18.validType o.type = some vt → lookupS Facts.C18.criteriaType o.criteria = none →
+      Facts.C18.noCriteriaTypes.contains vt = false → setGet o = none) := by
+  constructor
+  · intro h; simp [setGet, setRule, h]
+  · intro vt hv hc hn
+    simp only [setGet, setRule, hv, hc, Option.isSome_none, Bool.false_or, hn, Bool.false_eq_true, if_false, Option.map_none]
+
+/-- `cf_set_get_roundtrip`, rule type "duplicate": format and stop-if-true read back, everything else is dropped -/
+theorem cf_duplicate_roundtrip (o : Opts) (ht : o.type = "duplicate".toList) (ct : String) (hc : lookupS Facts.C18.criteriaType o.criteria = some ct) :
+    setGet o = some (some { Opts.empty with type := "duplicate".toList, format := o.format, stopIfTrue := o.stopIfTrue, criteria := ['='] }) := by
+  rw [setGet_eq o "duplicateValues" (some ct) (by rw [ht]; decide) hc (by simp) (by decide)]
+  cf_simp
+
+/-- `cf_set_get_roundtrip`, rule type "unique": format and stop-if-true read back, everything else is dropped -/
+theorem cf_unique_roundtrip (o : Opts) (ht : o.type = "unique".toList) (ct : String) (hc : lookupS Facts.C18.criteriaType o.criteria = some ct) :
+    setGet o = some (some { Opts.empty with type := "unique".toList, format := o.format, stopIfTrue := o.stopIfTrue, criteria := ['='] }) := by
+  rw [setGet_eq o "uniqueValues" (some ct) (by rw [ht]; decide) hc (by simp) (by decide)]
+  cf_simp
+
+/-- `cf_set_get_roundtrip`, rule type "blanks": format and stop-if-true read back, everything else is dropped -/
+theorem cf_blanks_roundtrip (o : Opts) (ht : o.type = "blanks".toList) :
+    setGet o = some (some { Opts.empty with type := "blanks".toList, format := o.format, stopIfTrue := o.stopIfTrue, criteria := [] }) := by
+  rw [setGet_eq o "containsBlanks" _ (by rw [ht]; decide) rfl (by simp; right; decide) (by decide)]
+  cf_simp
+
+/-- `cf_set_get_roundtrip`, rule type "no_blanks": format and stop-if-true read back, everything else is dropped -/
+theorem cf_no_blanks_roundtrip (o : Opts) (ht : o.type = "no_blanks".toList) :
+    setGet o = some (some { Opts.empty with type := "no_blanks".toList, format := o.format, stopIfTrue := o.stopIfTrue, criteria := [] }) := by
+  rw [setGet_eq o "notContainsBlanks" _ (by rw [ht]; decide) rfl (by simp; right; decide) (by decide)]
+  cf_simp
+
+/-- `cf_set_get_roundtrip`, rule type "errors": format and stop-if-true read back, everything else is dropped -/
+theorem cf_errors_roundtrip (o : Opts) (ht : o.type = "errors".toList) :
+    setGet o = some (some { Opts.empty with type := "errors".toList, format := o.format, stopIfTrue := o.stopIfTrue, criteria := [] }) := by
+  rw [setGet_eq o "containsErrors" _ (by rw [ht]; decide) rfl (by simp; right; decide) (by decide)]
+  cf_simp
+
+/-- `cf_set_get_roundtrip`, rule type "no_errors": format and stop-if-true read back, everything else is dropped -/
+theorem cf_no_errors_roundtrip (o : Opts) (ht : o.type = "no_errors".toList) :
+    setGet o = some (some { Opts.empty with type := "no_errors".toList, format := o.format, stopIfTrue := o.stopIfTrue, criteria := [] }) := by
+  rw [setGet_eq o "notContainsErrors" _ (by rw [ht]; decide) rfl (by simp; right; decide) (by decide)]
+  cf_simp
+
+/-- rule type "average": additionally AboveAverage -/
+theorem cf_average_roundtrip (o : Opts) (ct : String) (ht : o.type = "average".toList)
+    (hc : lookupS Facts.C18.criteriaType o.criteria = some ct) :
+    setGet o = some (some { Opts.empty with type := "average".toList, criteria := ['='], format := o.format, stopIfTrue := o.stopIfTrue, aboveAverage := o.aboveAverage }) := by
+  rw [setGet_eq o "aboveAverage" (some ct) (by rw [ht]; decide) hc (by simp) (by decide)]
+  cf_simp
+
+/-- rule types "top" / "bottom": Percent reads back; Value is normalised to the decimal text of
+the rank `strconv.Atoi` finds in it, 10 when it is not a number ("" → "10", "007" → "7") -/
+theorem cf_top_bottom_roundtrip (o : Opts) (ct : String) (ht : o.type = "top".toList ∨ o.type = "bottom".toList)
+    (hc : lookupS Facts.C18.criteriaType o.criteria = some ct) :
+    setGet o = some (some { Opts.empty with type := o.type, criteria := ['='], format := o.format, stopIfTrue := o.stopIfTrue, percent := o.percent, value := (toString (match Ref.atoi o.value with | some n => n | none => (10 : Int))).toList }) := by
+  rcases ht with ht | ht
+  · rw [setGet_eq o "top10" (some ct) (by rw [ht]; decide) hc (by simp) (by decide)]
+    cf_simp
+    simp only [ht]
+    cases Ref.atoi o.value <;> simp (config := { decide := true })
+  · rw [setGet_eq o "top10" (some ct) (by rw [ht]; decide) hc (by simp) (by decide)]
+    cf_simp
+    simp only [ht]
+    cases Ref.atoi o.value <;> simp (config := { decide := true })
+
+/-- rule type "formula": the criteria text is the formula and reads back verbatim -/
+theorem cf_formula_roundtrip (o : Opts) (ht : o.type = "formula".toList) :
+    setGet o = some (some { Opts.empty with type := "formula".toList, criteria := o.criteria, format := o.format, stopIfTrue := o.stopIfTrue }) := by
+  rw [setGet_eq o "expression" _ (by rw [ht]; decide) rfl (by simp; right; decide) (by decide)]
+  cf_simp
+
+/-- rule type "icon_set" with a known preset: style, reverse and icons-only read back (Format
+and StopIfTrue are not part of an icon-set rule) -/
+theorem cf_icon_set_roundtrip (o : Opts) (ht : o.type = "icon_set".toList)
+    (hi : Facts.C18.condFmtIconSetPresetsKeys.contains (String.ofList o.iconStyle) = true) :
+    setGet o = some (some { Opts.empty with type := "icon_set".toList, iconStyle := o.iconStyle, reverseIcons := o.reverseIcons, iconsOnly := o.iconsOnly }) := by
+  rw [setGet_eq o "iconSet" _ (by rw [ht]; decide) rfl (by simp; right; decide) (by decide)]
+  simp only [drawRule]
+  simp (config := { decide := true }) only [hi, if_true, if_false, Option.map_some]
+  cf_simp
+
+/-- an icon style that is no preset is rejected -/
+theorem cf_icon_set_unknown_rejected (o : Opts) (ht : o.type = "icon_set".toList)
+    (hi : Facts.C18.condFmtIconSetPresetsKeys.contains (String.ofList o.iconStyle) = false) : setGet o = none := by
+  rw [setGet_eq o "iconSet" _ (by rw [ht]; decide) rfl (by simp; right; decide) (by decide)]
+  simp only [drawRule]
+  simp (config := { decide := true }) only [hi, if_true, if_false, Bool.false_eq_true, Option.map_none]
+
+/-- a stored cfvo value reads back with "0" shown as "" (an unset value is written as "0") -/
+def normValue (v d : List Char) : List Char := if orDefault v d == ['0'] then [] else orDefault v d
+
+/-- colours: a colour with six hex digits (with or without '#', any case) reads back as '#' + upper case -/
+theorem cf_color_roundtrip (c : List Char) (h6 : ((c.map upperC).filter (· != '#')).length = 6) :
+    readColor (paletteColor c) = '#' :: (c.map upperC).filter (· != '#') := by
+  unfold readColor paletteColor
+  simp [h6]
+
+/-- rule type "2_color_scale": types, values (unset = "0" = ""), colours through the palette -/
+theorem cf_2_color_scale_roundtrip (o : Opts) (ct : String) (ht : o.type = "2_color_scale".toList)
+    (hc : lookupS Facts.C18.criteriaType o.criteria = some ct) :
+    setGet o = some (some { Opts.empty with type := "2_color_scale".toList, criteria := ['='], stopIfTrue := o.stopIfTrue, minType := o.minType, minValue := normValue o.minValue ['0'], minColor := readColor (paletteColor o.minColor), maxType := o.maxType, maxValue := normValue o.maxValue ['0'], maxColor := readColor (paletteColor o.maxColor) }) := by
+  rw [setGet_eq o "2_color_scale" (some ct) (by rw [ht]; decide) hc (by simp) (by decide)]
+  cf_simp
+  rfl
+
+/-- rule type "3_color_scale": as above with the mid point, whose unset value reads back as "50" -/
+theorem cf_3_color_scale_roundtrip (o : Opts) (ct : String) (ht : o.type = "3_color_scale".toList)
+    (hc : lookupS Facts.C18.criteriaType o.criteria = some ct) :
+    setGet o = some (some { Opts.empty with type := "3_color_scale".toList, criteria := ['='], stopIfTrue := o.stopIfTrue, minType := o.minType, minValue := normValue o.minValue ['0'], minColor := readColor (paletteColor o.minColor), midType := o.midType, midValue := normValue o.midValue ['5', '0'], midColor := readColor (paletteColor o.midColor), maxType := o.maxType, maxValue := normValue o.maxValue ['0'], maxColor := readColor (paletteColor o.maxColor) }) := by
+  rw [setGet_eq o "3_color_scale" (some ct) (by rw [ht]; decide) hc (by simp) (by decide)]
+  cf_simp
+  rfl
+
+/-- does the data bar need the x14 extension rule? -/
+def needsExt (o : Opts) : Bool :=
+  o.barSolid || o.barDirection == "leftToRight".toList || o.barDirection == "rightToLeft".toList || !o.barBorderColor.isEmpty
+
+/-- rule type "data_bar" without extension fields: bounds verbatim, colour, bar-only -/
+theorem cf_data_bar_roundtrip (o : Opts) (ct : String) (ht : o.type = "data_bar".toList)
+    (hc : lookupS Facts.C18.criteriaType o.criteria = some ct) (hn : needsExt o = false) :
+    setGet o = some (some { Opts.empty with type := "data_bar".toList, criteria := ['='], stopIfTrue := o.stopIfTrue, minType := o.minType, minValue := o.minValue, maxType := o.maxType, maxValue := o.maxValue, barColor := readColor (paletteColor o.barColor), barOnly := o.barOnly }) := by
+  rw [setGet_eq o "dataBar" (some ct) (by rw [ht]; decide) hc (by simp) (by decide)]
+  unfold needsExt at hn
+  simp only [drawRule]
+  simp (config := { decide := true }) only [hn, if_true, if_false, Bool.false_eq_true, Option.map_some]
+  cf_simp
+
+/-- rule type "data_bar" with the x14 extension (solid fill, a direction, or a border colour):
+direction, solid and border colour read back as well -/
+theorem cf_data_bar_ext_roundtrip (o : Opts) (ct : String) (ht : o.type = "data_bar".toList)
+    (hc : lookupS Facts.C18.criteriaType o.criteria = some ct) (hn : needsExt o = true) :
+    setGet o = some (some { Opts.empty with type := "data_bar".toList, criteria := ['='], stopIfTrue := o.stopIfTrue, minType := o.minType, minValue := o.minValue, maxType := o.maxType, maxValue := o.maxValue, barColor := readColor (paletteColor o.barColor), barOnly := o.barOnly, barDirection := o.barDirection, barSolid := o.barSolid, barBorderColor := if o.barBorderColor.isEmpty then [] else readColor (paletteColor o.barBorderColor) }) := by
+  rw [setGet_eq o "dataBar" (some ct) (by rw [ht]; decide) hc (by simp) (by decide)]
+  unfold needsExt at hn
+  simp only [drawRule]
+  simp (config := { decide := true }) only [hn, if_true, if_false, Option.map_some]
+  cf_simp
+  cases o.barBorderColor.isEmpty <;> simp
+
+/-- rule type "cell" with a comparison criteria of `cellIsCriteriaType`: Value reads back, the
+criteria as its canonical words; Min/MaxValue are not part of the rule -/
+theorem cf_cell_value_roundtrip (o : Opts) (ct : String) (ht : o.type = "cell".toList)
+    (hc : lookupS Facts.C18.criteriaType o.criteria = some ct)
+    (hcell : Facts.C18.cellIsCriteriaType.contains ct = true) :
+    setGet o = some (some { Opts.empty with type := "cell".toList, format := o.format, stopIfTrue := o.stopIfTrue, criteria := opWords ct, value := o.value }) := by
+  have hm : ct ∈ ["equal", "notEqual", "greaterThan", "lessThan", "greaterThanOrEqual", "lessThanOrEqual",
+      "containsText", "notContains", "beginsWith", "endsWith"] := by
+    have := cf_rule_facts_pinned.2.1
+    rw [this] at hcell
+    simpa using hcell
+  rw [setGet_eq o "cellIs" (some ct) (by rw [ht]; decide) hc (by simp) (by decide)]
+  simp only [List.mem_cons, List.mem_nil_iff, or_false] at hm
+  rcases hm with h | h | h | h | h | h | h | h | h | h <;> subst h <;> cf_simp <;> simp only [strOr]
+
+/-- rule type "cell" with "between" / "not between": Min/MaxValue read back -/
+theorem cf_cell_between_roundtrip (o : Opts) (ct : String) (ht : o.type = "cell".toList)
+    (hc : lookupS Facts.C18.criteriaType o.criteria = some ct) (hb : ct = "between" ∨ ct = "notBetween") :
+    setGet o = some (some { Opts.empty with type := "cell".toList, format := o.format, stopIfTrue := o.stopIfTrue, criteria := opWords ct, minValue := o.minValue, maxValue := o.maxValue }) := by
+  rw [setGet_eq o "cellIs" (some ct) (by rw [ht]; decide) hc (by simp) (by decide)]
+  rcases hb with hb | hb <;> subst hb <;> cf_simp <;> simp only [strOr]
+
+/-- finding cfr:accepted-but-not-listed:text — a "text" rule whose criteria is not one of the
+four text criteria is ACCEPTED, stored with an empty rule type, and not listed by the getter -/
+theorem finding_cf_text_rule_hidden :
+    setGet { Opts.empty with type := "text".toList, criteria := "greater than".toList, value := "abc".toList } = some none := by
+  decide +kernel
+
+end CfRuleThms
 
 end XlModel.Props.C18
